@@ -80,8 +80,17 @@ def guard_sites(model):
                     p = model.parents.get(p)
                 if p is not None:
                     found = p.test
+        if found is None:
+            # guard factored into a helper shared by the builders
+            for n in ast.walk(f.node):
+                if isinstance(n, ast.Call) and isinstance(n.func, ast.Attribute) and isinstance(n.func.value, ast.Name) \
+                        and n.func.value.id in ("self", "__class__"):
+                    from ..model import mangle
+                    h = f.cls.find_method(mangle(n.func.attr, f.cls.name)) if f.cls else None
+                    if h is not None and any(isinstance(x, ast.Raise) and NFW in ast.unparse(x) for x in ast.walk(h.node)):
+                        found = ast.Constant(value=f"<helper {h.short}>")
         const = None
-        if found is not None:
+        if found is not None and not isinstance(found, ast.Constant):
             for c in ast.walk(found):
                 if isinstance(c, ast.Call) and isinstance(c.func, ast.Attribute) and c.func.attr in ("search", "match", "fullmatch", "findall") and c.args:
                     const = fold_str(model, f, c.args[0])
@@ -183,6 +192,9 @@ def run(ctx, model):
     catalogue = [
         ("literal 'pq'", "Other", "pq"), ("escaped literal '?'", "Token", "\\?"), ("escaped literal 'a+b'", "Other", "a\\+b"),
         ("escaped literal '{1,2}'", "Other", "\\{1,2\\}"), ("escaped literal '('", "Token", "\\("), ("literal '\\\\\\\\+' (backslash then quantifier)", "Quantifier", "\\\\+"),
+        ("escaped backslash then escaped '*'", "Other", "\\\\\\*"), ("escaped backslash then escaped '?' then 'a'", "Other", "\\\\\\?a"),
+        ("'a' + escaped backslash + escaped '+' + 'b'", "Other", "a\\\\\\+b"), ("two escaped backslashes then '*'", "Quantifier", "\\\\\\\\*"),
+        ("escaped '(' then '?'", "Quantifier", "\\(?"), ("escaped backslash, escaped '(', then '+'", "Quantifier", "\\\\\\(+"),
         ("class [pq]", "Class", "[pq]"), ("class containing '?'", "Class", "[?p]"), ("class containing '+' and '-'", "Class", "[+\\-]"),
         ("class containing '*'", "Class", "[*]"), ("class containing '{'", "Class", "[{}]"),
         ("equal-width alternation", "Alternation", "p|q"), ("equal-width alternation (2)", "Alternation", "pq|rw"),
